@@ -80,6 +80,20 @@ def case(draw):
             others -= w
         rule = "STV"
         m_planted = k
+    elif n >= 3 and draw(st.integers(0, 5)) == 0:
+        # planted: a two-member coalition worth exactly two quotas whose second member only reaches
+        # the quota through the FRACTIONAL surplus of the first (tallies T+x and T-x), against an
+        # outsider on T-y with 0 < y < x < 1
+        T = draw(st.integers(2, 6))
+        x = draw(st.sampled_from([Fraction(1, 2), Fraction(2, 3), Fraction(9, 10), Fraction(5, 6)]))
+        y = x * draw(st.sampled_from([Fraction(1, 2), Fraction(1, 3), Fraction(1, 5)]))
+        a, b, c3 = cands[0], cands[1], cands[2]
+        ballots = [{"r": [[a], [b]], "w": C.enc(T + x)}, {"r": [[b], [a]], "w": C.enc(T - x)},
+                   {"r": [[c3]] + ([[cands[3]]] if n > 3 and draw(st.booleans()) else []), "w": C.enc(T - y)}]
+        ballots = list(draw(st.permutations(ballots)))
+        rule = "STV"
+        transfer = "fractional"
+        m_planted = 2
     else:
         m_planted = None
     return {
